@@ -26,7 +26,8 @@ def sh(cmd, cwd=None, env=None, timeout=3600):
 
 def main():
     src, sid = sys.argv[1], sys.argv[2]
-    checks = sys.argv[3:]
+    checks = [c for c in sys.argv[3:] if not c.startswith("--")]
+    confirm_only = "--confirm-only" in sys.argv
     meta = json.load(open(os.path.join(src, "meta.json")))
     if not os.path.isdir(WT):
         rc, out = sh(f"git -C /repo worktree add -q {WT} HEAD")
@@ -49,6 +50,10 @@ def main():
     cmd = re.sub(r"/tmp/wt-C\d+", WT, cmd)
     cmd = re.sub(r"CARGO_TARGET_DIR=\S+", "", cmd)
     cmd = re.sub(r"^cd \S+ && ", "", cmd).strip()
+    # keep only the cargo invocation (with its env assignments); drop `cp ... &&`, `git apply ... &&` prefixes
+    m = re.search(r"((?:RUSTFLAGS=(?:'[^']*'|\"[^\"]*\")\s+)?(?:MIRIFLAGS=\S+\s+)?cargo\s.*)$", cmd)
+    if m:
+        cmd = m.group(1)
     report = {"seed": sid, "property": meta.get("property"), "demo_cmd": cmd, "steps": []}
 
     def place():
@@ -73,6 +78,15 @@ def main():
     confirmed = (not bad_lines) and rc1 != 0 and rc2 == 0
     report["confirmed"] = confirmed
 
+    dst = os.path.join("/verif/seeded", sid)
+    if confirm_only and os.path.exists(os.path.join(dst, "meta.json")):
+        old = json.load(open(os.path.join(dst, "meta.json")))
+        old["confirmed_by_me"] = confirmed
+        old["what_i_ran"] = report["steps"]
+        old["demo"] = {"files": placements, "cmd": cmd}
+        json.dump(old, open(os.path.join(dst, "meta.json"), "w"), indent=1)
+        print(json.dumps({"seed": sid, "confirmed": confirmed, "checks": old.get("checks_run_against_it")}))
+        return
     # run the checks against /repo itself with the patch applied
     caught = {}
     rc, out = sh("git diff --quiet", cwd="/repo")
